@@ -585,6 +585,9 @@ func (vc *VC) evalIndex(fr *frame, st *State, x *ast.IndexExpr) Val {
 		a := vc.term(vc.evalExpr(fr, st, x.X))
 		i := vc.term(vc.evalExpr(fr, st, x.Index))
 		vc.oblige(st, "safety", "index", x.Pos(), And(Le(IntLit(0), i), Lt(i, IntLit(u.Len()))), "array index out of range")
+		if a.Sort == SBox {
+			return vc.loadElem(st, u.Elem(), MkSlice(Term{a.S, SInt}, IntLit(0), IntLit(u.Len()), IntLit(u.Len())), i)
+		}
 		return Select(a, i)
 	case *types.Pointer:
 		if arr, ok := u.Elem().Underlying().(*types.Array); ok {
@@ -623,6 +626,14 @@ func (vc *VC) evalSliceExpr(fr *frame, st *State, x *ast.SliceExpr) Val {
 		_ = u
 		vc.errorf(x.Pos(), "slicing pointer to array unsupported")
 		return vc.havocVal(fr.typeOf(x), "slice")
+	case *types.Array:
+		base, ok := vc.boxArray(fr, st, x.X, u)
+		if !ok {
+			vc.errorf(x.Pos(), "slicing of this array expression is unsupported")
+			return vc.havocVal(fr.typeOf(x), "slice")
+		}
+		s = MkSlice(base, IntLit(0), IntLit(u.Len()), IntLit(u.Len()))
+		xt = types.NewSlice(u.Elem())
 	default:
 		vc.errorf(x.Pos(), "slicing %s unsupported", xt)
 		return vc.havocVal(fr.typeOf(x), "slice")
@@ -1330,3 +1341,40 @@ func (vc *VC) makeSlice(st *State, elem types.Type, n, c Term, pos token.Pos) Te
 }
 
 var _ = strings.HasPrefix
+
+
+// boxArray moves a local fixed-size array variable into the heap the first time it is sliced, so
+// that slices of it alias the variable. It returns the identity of the backing array.
+func (vc *VC) boxArray(fr *frame, st *State, e ast.Expr, at *types.Array) (Term, bool) {
+	for {
+		if p, ok := e.(*ast.ParenExpr); ok {
+			e = p.X
+			continue
+		}
+		break
+	}
+	id, ok := e.(*ast.Ident)
+	if !ok {
+		return Term{}, false
+	}
+	o, ok := fr.ctx.info.ObjectOf(id).(*types.Var)
+	if !ok || structOf(at.Elem()) != nil {
+		return Term{}, false
+	}
+	cur, ok := st.vars[o].(Term)
+	if !ok {
+		return Term{}, false
+	}
+	if cur.Sort == SBox {
+		return Term{cur.S, SInt}, true
+	}
+	base := vc.allocRef(st, "box!"+o.Name())
+	key := vc.elemKey(at.Elem())
+	h := vc.heap(st, key, HeapSort(vc.sortOf(at.Elem())))
+	saved := vc.checkFrm
+	vc.checkFrm = false
+	vc.setHeap(st, key, Store(h, base, cur))
+	vc.checkFrm = saved
+	st.vars[o] = Term{base.S, SBox}
+	return base, true
+}
